@@ -106,7 +106,7 @@ func init() {
 		Cases: func(tier string) int { return tierN(tier, 1000, 50000) },
 		Rule: "case = one history (12-50 ops quick, up to 120 thorough; 1-8 keys; several writes/removals of one key inside a version, set-then-remove, remove-then-set, identical rewrites, no-op and empty versions, a few prunes/rollbacks/reopens; 1 history in 4 is generated in normal form: ascending keys, one op per key). " +
 			"After every commit and at the end: TraverseStateChanges over the full range and over random sub-ranges; for every delivered version whose predecessor is retained (or that is the first version ever) the change set must equal the model's net change: ascending, one entry per key, a set entry with the value for every key whose last operation in v was a Set (also when unchanged), a delete entry for every key of v-1 absent in v, nothing else, and applying it to M(v-1) gives M(v); every requested retained version in [start,end) must be delivered. " +
-			"Replay: all extracted sets are applied with SaveChangeSet to an empty tree (same initial version): each call must create exactly the next version, contents must equal M(v), and the root hash must equal the original whenever the original writes were already in normal form (decided by comparing the two lists); SaveChangeSet with a removal of a missing key must fail. " +
+			"Replay: all extracted sets are applied with SaveChangeSet to an empty tree (same initial version): each call must create exactly the next version, contents must equal M(v), and the root hash must equal the original whenever the original writes were already in normal form (decided by comparing the two lists); SaveChangeSet with a removal of a missing key must fail, also when the key goes missing inside the set (two removals of one key in a row); a key that is set and then removed inside the set is not missing (such a set is applied instead of the extracted one in a quarter of the versions). " +
 			"distinct = hash(config, ops); non-trivial = >=3 versions with predecessor compared incl. >=1 with a delete entry and >=1 replay.",
 		Assumptions: []string{"model M (incl. per-version 'last operation was a Set' bookkeeping)", "the end-of-range convention (doc: exclusive, code: inclusive) is not asserted"},
 		Run: func(c *fw.Ctx) {
@@ -356,9 +356,36 @@ func replayChangeSets(e *v1x.Env, chainStart int64, origOps map[int64][]v1x.Op) 
 			r.T.Rollback()
 			c.Obs("missing_key_removals_rejected", 1)
 		}
-		nv, err := r.T.SaveChangeSet(cs)
+		// change sets that are not in normal form (one key in several pairs) are applied pair by pair:
+		// the second of two removals of one key removes a missing key and must be rejected ...
+		var present []string
+		if v > chainStart {
+			present = e.M.Vers[v-1].Keys()
+		}
+		if len(present) > 0 && c.Rng.Intn(3) == 0 {
+			k := []byte(present[c.Rng.Intn(len(present))])
+			pre := []*iavl.KVPair{{Delete: true, Key: k}, {Delete: true, Key: k}}
+			if c.Rng.Intn(2) == 0 {
+				pre = []*iavl.KVPair{{Delete: true, Key: k}, {Key: k, Value: []byte("again")}, {Delete: true, Key: k}, {Delete: true, Key: k}}
+			}
+			if _, err := r.T.SaveChangeSet(&iavl.ChangeSet{Pairs: append(pre, cs.Pairs...)}); err == nil {
+				e.Bad("changeset|save|missing-key-accepted", "SaveChangeSet accepted a change set whose pairs remove key %q twice in a row (version %d): the second removal is the removal of a missing key", k, v)
+				return
+			}
+			r.T.Rollback()
+			c.Obs("double_removals_rejected", 1)
+		}
+		// ... and a key that is set and then removed inside the set is not a missing key
+		toApply := cs
+		if c.Rng.Intn(4) == 0 {
+			fresh := []byte(fmt.Sprintf("\x01set-then-removed-%d\x01", v))
+			toApply = &iavl.ChangeSet{Pairs: append([]*iavl.KVPair{{Key: fresh, Value: []byte("x")}, {Delete: true, Key: fresh}}, cs.Pairs...)}
+			allNormal = false // (the shape of the tree may differ from here on)
+			c.Obs("sets_applied_with_a_set_then_removed_key", 1)
+		}
+		nv, err := r.T.SaveChangeSet(toApply)
 		if err != nil {
-			e.Bad("changeset|save|error", "SaveChangeSet of the extracted set of version %d (%s): %v", v, csStr(csFromIavl(cs)), err)
+			e.Bad("changeset|save|error", "SaveChangeSet of the extracted set of version %d (%s): %v", v, csStr(csFromIavl(toApply)), err)
 			return
 		}
 		if nv != v {
